@@ -768,16 +768,29 @@ def outputForSEQXFile (s : Sequence) : Except Err (Deferred SEQXPkg) :=
             | .error er => if obs.isEmpty then .error er else .ok ⟨obs, some er, none⟩
             | .ok rows => .ok ⟨obs, none, some (seqxPackage s chans.length amps rows)⟩
 
+/-- the flags of one channel of one forged element; `[0, 0, 0, 0]` where none were set -/
+def seqxFlagCell (el : Dict Chan ChOutF) (ch : Chan) : Except Err (List Nat) :=
+  match lookupCh el ch with
+  | .error e => .error e
+  | .ok c => .ok ((chFlags c).getD [0, 0, 0, 0])
+
 /-- `Sequence.outputForSEQXFileWithFlags()` -/
-def outputForSEQXFileWithFlags (s : Sequence) : Except Err (Deferred SEQXPkg) := do
-  let elements ← s.prepareForOutputting
-  let chans ← match Dict.get? s.data 1 with
-    | some en => en.channels
-    | none => throw Err.key
-  let flags ← chans.mapM (fun ch => elements.mapM (fun el => do
-    pure ((chFlags (← lookupCh el ch)).getD [0, 0, 0, 0])))
-  let d ← s.outputForSEQXFile
-  pure { d with pkg := d.pkg.map (fun p => { p with flags := some flags }) }
+def outputForSEQXFileWithFlags (s : Sequence) : Except Err (Deferred SEQXPkg) :=
+  match s.prepareForOutputting with
+  | .error e => .error e
+  | .ok elements =>
+    match Dict.get? s.data 1 with
+    | none => .error .key
+    | some en =>
+      match en.channels with
+      | .error e => .error e
+      | .ok chans =>
+        match chans.mapM (fun ch => elements.mapM (fun el => seqxFlagCell el ch)) with
+        | .error e => .error e
+        | .ok flags =>
+          match s.outputForSEQXFile with
+          | .error e => .error e
+          | .ok d => .ok { d with pkg := d.pkg.map (fun p => { p with flags := some flags }) }
 
 end Sequence
 end BB
